@@ -54,7 +54,8 @@ type rootRec struct {
 	Roots   []string `json:"roots"`
 	Err     string   `json:"err,omitempty"`
 	Panic   string   `json:"panic,omitempty"`
-	SH      int      `json:"sh,omitempty"` // sub-tree height if not the default
+	SH      int      `json:"sh,omitempty"`  // sub-tree height if not the default
+	KL0     bool     `json:"kl0,omitempty"` // the trie is created / re-opened with keyLength 0 (= DefaultKeyLength 32)
 }
 
 type wq [3]string // key, value, bitmap
@@ -283,17 +284,22 @@ type trieT interface {
 }
 
 func runRoot(kl int, gen string, batches [][]wop, reopen []bool, sh int) rootRec {
-	rec := rootRec{K: "root", KL: kl, Gen: gen, Batches: batches, Reopen: reopen, Roots: []string{}, SH: sh}
+	return runRootKL(kl, kl, gen, batches, reopen, sh)
+}
+
+// runRootKL: klArg is the keyLength passed to NewTrie (0 = default), kl the real key length
+func runRootKL(kl, klArg int, gen string, batches [][]wop, reopen []bool, sh int) rootRec {
+	rec := rootRec{K: "root", KL: kl, Gen: gen, Batches: batches, Reopen: reopen, Roots: []string{}, SH: sh, KL0: klArg == 0}
 	pending(rec)
 	db := newMem()
-	t := smt.NewTrie(nil, kl)
+	t := smt.NewTrie(nil, klArg)
 	if sh != 0 {
 		t.SetSubtreeHeight(uint8(sh))
 	}
 	var root []byte
 	for i, b := range batches {
 		if reopen[i] {
-			t = smt.NewTrie(root, kl)
+			t = smt.NewTrie(root, klArg)
 			if sh != 0 {
 				t.SetSubtreeHeight(uint8(sh))
 			}
@@ -491,6 +497,19 @@ func runProof(r *hx.Rng, kl int, gen string, batches [][]wop, keys [][]byte, tam
 		q = cpQ()
 		q[i][2] = hx2(append([]byte{1}, bm...))
 		add(keys, rec.Sibs, q, 0, "bitmap-longer")
+		// one byte moved between key and value: the leaf hash H(0 || key || value) is unchanged
+		if len(v) > 0 {
+			q = cpQ()
+			q[i][0] = hx2(append(unhex(q[i][0]), v[0]))
+			q[i][1] = hx2(v[1:])
+			add(keys, rec.Sibs, q, 0, "key<-value-byte")
+		}
+		if kb := unhex(rec.Qs[i][0]); len(kb) > 0 {
+			q = cpQ()
+			q[i][0] = hx2(kb[:len(kb)-1])
+			q[i][1] = hx2(append([]byte{kb[len(kb)-1]}, v...))
+			add(keys, rec.Sibs, q, 0, "key->value-byte")
+		}
 		// both the requested key and the answer moved to another key (claim about another key)
 		k2 := append([][]byte{}, keys...)
 		k2[i] = flipBit(keys[i], r.Intn(kl*8))
@@ -509,23 +528,65 @@ func runProof(r *hx.Rng, kl int, gen string, batches [][]wop, keys [][]byte, tam
 	add(keys, append(cpS(), hx2(value(r))), rec.Qs, 0, "sibling-added")
 	if len(rec.Qs) > 1 {
 		add(keys[:len(keys)-1], rec.Sibs, rec.Qs[:len(rec.Qs)-1], 0, "query-dropped")
-		// forged extra query: same node as query 0, other key and value
-		q := append(cpQ(), wq{hx2(flipBit(unhex(rec.Qs[0][0]), kl*8-1)), hx2(value(r)), rec.Qs[0][2]})
-		add(append(append([][]byte{}, keys...), unhex(q[len(q)-1][0])), rec.Sibs, q, 0, "forged-extra-query")
 	}
-	// forged deeper query below query 0 with interleaved junk siblings
+	// forged second query F at the node of query 0 (T), and one level below it, with F > T and F < T
 	{
 		q0 := rec.Qs[0]
 		bm := unhex(q0[2])
+		h := bitmapHeight(bm)
 		junk := hx2(value(r))
-		deeper := wq{hx2(flipBit(unhex(q0[0]), kl*8-1)), hx2(value(r)), hx2(longerBitmap(bm))}
-		sibs := []string{junk}
-		for _, s := range rec.Sibs {
-			sibs = append(sibs, s, junk)
+		for _, greater := range []bool{true, false} {
+			f := neighbourKey(unhex(q0[0]), h, greater)
+			if f == nil {
+				continue
+			}
+			tag := "F<T"
+			if greater {
+				tag = "F>T"
+			}
+			ks := append(append([][]byte{}, keys...), f)
+			add(ks, rec.Sibs, append(cpQ(), wq{hx2(f), hx2(value(r)), q0[2]}), 0, "forged-extra-query "+tag)
+			// same, F listed first
+			add(append([][]byte{f}, keys...), rec.Sibs, append([]wq{{hx2(f), hx2(value(r)), q0[2]}}, cpQ()...), 0, "forged-extra-query-first "+tag)
+			deeper := wq{hx2(f), hx2(value(r)), hx2(longerBitmap(bm))}
+			sibs := []string{junk}
+			for _, s := range rec.Sibs {
+				sibs = append(sibs, s, junk)
+			}
+			add(ks, sibs, append(cpQ(), deeper), 0, "forged-deeper-query "+tag)
+			add(ks, append([]string{junk}, rec.Sibs...), append(cpQ(), deeper), 0, "forged-deeper-query-1sib "+tag)
 		}
-		add(append(append([][]byte{}, keys...), unhex(deeper[0])), sibs, append(cpQ(), deeper), 0, "forged-deeper-query")
 	}
 	return rec
+}
+
+// bitmapHeight: number of bits of the bitmap after its leading zeros
+func bitmapHeight(bm []byte) int {
+	n := 0
+	seen := false
+	for _, b := range bm {
+		for j := 0; j < 8; j++ {
+			if b&(0x80>>uint(j)) != 0 {
+				seen = true
+			}
+			if seen {
+				n++
+			}
+		}
+	}
+	return n
+}
+
+// neighbourKey: a key sharing the first h bits with k that is greater (smaller) than k: the last bit after position h
+// that is 0 (1) is flipped; nil if there is none
+func neighbourKey(k []byte, h int, greater bool) []byte {
+	for b := len(k)*8 - 1; b >= h; b-- {
+		set := k[b/8]&(0x80>>uint(b%8)) != 0
+		if set != greater {
+			return flipBit(k, b)
+		}
+	}
+	return nil
 }
 
 // longerBitmap: one more level below: bits = 1 ++ bits(bm)
@@ -626,6 +687,7 @@ func replay(o *hx.Out, path string, r *hx.Rng) {
 			Reopen  []bool   `json:"reopen"`
 			Keys    []string `json:"keys"`
 			SH      int      `json:"sh"`
+			KL0     bool     `json:"kl0"`
 		}
 		if err := json.Unmarshal([]byte(line), &g); err != nil {
 			panic(err)
@@ -635,7 +697,11 @@ func replay(o *hx.Out, path string, r *hx.Rng) {
 			if len(g.Reopen) != len(g.Batches) {
 				g.Reopen = make([]bool, len(g.Batches))
 			}
-			o.Put(runRoot(g.KL, g.Gen, g.Batches, g.Reopen, g.SH))
+			klArg := g.KL
+			if g.KL0 {
+				klArg = 0
+			}
+			o.Put(runRootKL(g.KL, klArg, g.Gen, g.Batches, g.Reopen, g.SH))
 		case "proof":
 			ks := make([][]byte, len(g.Keys))
 			for i, k := range g.Keys {
@@ -652,6 +718,8 @@ func main() {
 	nroot := flag.Int("nroot", 120, "histories")
 	nproof := flag.Int("nproof", 120, "proof cases")
 	nev := flag.Int("nev", 20, "event root cases")
+	nfull := flag.Int("nfull", 2, "full sub-tree cases (256 keys differing in one byte)")
+	fullkl := flag.Int("fullkl", 0, "key length of the full sub-tree cases (0 = alternate 32 and 4)")
 	flag.IntVar(&maxObs, "maxobs", 40, "max verification observations per proof case")
 	flag.Parse()
 	r := hx.NewRng(hx.SeedFromEnv())
@@ -691,6 +759,38 @@ func main() {
 			nq = 1
 		}
 		o.Put(runProof(r, kl, mode, bs, pickQueries(r, g, bs, nq), true))
+	}
+	// full 8-bit sub-tree: 256 keys differing in one byte under a shared prefix, then re-open, update/delete, no-op, prove
+	for i := 0; i < *nfull; i++ {
+		kl := []int{32, 4}[i%2]
+		if *fullkl != 0 {
+			kl = *fullkl
+		}
+		base := r.Bytes(kl)
+		p := r.Intn(kl)
+		b1 := []wop{}
+		for x := 0; x < 256; x++ {
+			k := append([]byte{}, base...)
+			k[p] = byte(x)
+			b1 = append(b1, wop{hx2(k), hx2(value(r))})
+		}
+		pick := func() string { return b1[r.Intn(256)][0] }
+		b2 := []wop{{pick(), hx2(value(r))}, {pick(), ""}, {hx2(flipBit(unhex(pick()), kl*8-1-r.Intn(3))), hx2(value(r))}}
+		b3 := []wop{{b1[7][0], b1[7][1]}}
+		o.Put(runRoot(kl, "full-subtree", [][]wop{b1, b2, b3, {{pick(), ""}}}, []bool{false, true, false, true}, 0))
+		qk := [][]byte{unhex(pick()), unhex(pick()), flipBit(unhex(pick()), kl*8-1)}
+		o.Put(runProof(r, kl, "full-subtree", [][]wop{b1, b2}, qk, true))
+	}
+	// keyLength 0 = DefaultKeyLength: histories with 32-byte keys on tries created and re-opened with NewTrie(x, 0)
+	for i := 0; i < 3; i++ {
+		g := newKeygen(r, 32, modes[r.Intn(len(modes))])
+		nb := 2 + r.Intn(4)
+		bs := genHistory(r, g, nb, 1+r.Intn(6))
+		reopen := make([]bool, nb)
+		for j := range reopen {
+			reopen[j] = j > 0 && r.Intn(2) == 0
+		}
+		o.Put(runRootKL(32, 0, "keylength0", bs, reopen, 0))
 	}
 	// proofs against the empty trie and with no query
 	o.Put(runProof(r, 32, "empty", [][]wop{}, [][]byte{r.Bytes(32)}, true))
